@@ -14,9 +14,9 @@
      float64.
    * Timestamps are milliseconds (Z).  int64 wrap-around is not modelled: the theorems carry
      the hypothesis [in_range] (|ts| <= 2^62), under which no operation of the code overflows.
-   * One appender batch per block: createBlocks commits every maxSamplesInAppender = 5000
-     samples; the model (and the harness) cover blocks with fewer than 5000 samples, for which
-     there is exactly one Commit per block, after all Appends. *)
+   * The appender batches are modelled: createBlocks commits every maxSamplesInAppender = 5000
+     samples of a block; Append checks a sample against the committed samples only, Commit
+     re-checks every pending sample and drops (without error) what is not appendable. *)
 From Coq Require Import List ZArith Bool.
 From Verif Require Import lib.Int64.
 Import ListNotations.
@@ -119,8 +119,46 @@ Fixpoint commit (pending : list sample) (kept_rev : list sample) : list sample :
       end
   end.
 
+(* the committed sample of series sid with the largest timestamp (memSeries.maxTime(),
+   memSeries.lastValue) *)
+Fixpoint last_sample (kept_rev : list sample) (sid : Z) : option sample :=
+  match kept_rev with
+  | [] => None
+  | x :: r => if s_sid x =? sid then Some x else last_sample r sid
+  end.
+
+(* headAppender.Append: memSeries.appendable against the samples COMMITTED so far (the pending
+   samples of the current appender are not seen).  false = Append returns
+   ErrOutOfOrderSample / ErrDuplicateSampleForTimestamp and createBlocks fails with "add sample".
+   (The ErrOutOfBounds check cannot fire: minValidTime of every appender of the block's head is
+   below the block start because the head is created with chunk range 2*blockDuration.) *)
+Definition append_ok (kept_rev : list sample) (x : sample) : bool :=
+  match last_sample kept_rev (s_sid x) with
+  | None => true                                            (* headChunks == nil *)
+  | Some z => if s_ts x >? s_ts z then true
+              else if s_ts x =? s_ts z then s_val x =? s_val z   (* exact duplicate is accepted here *)
+              else false
+  end.
+
+Definition max_samples_in_appender : Z := 5000.           (* backfill(5000, ...) in tsdb.go *)
+
+(* the Append / Commit sequence of one block:
+     app.Append(...) error -> return; samplesCount++; if samplesCount < max { continue };
+     app.Commit(); app = w.Appender(ctx); samplesCount = 0
+   and the final app.Commit().  None = "add sample" error. *)
+Fixpoint append_all (l : list sample) (kept_rev pend_rev : list sample) (count : Z) : option (list sample) :=
+  match l with
+  | [] => Some (commit (rev pend_rev) kept_rev)
+  | x :: r =>
+      if append_ok kept_rev x then
+        if count + 1 <? max_samples_in_appender then append_all r kept_rev (x :: pend_rev) (count + 1)
+        else append_all r (commit (rev (x :: pend_rev)) kept_rev) [] 0
+      else None
+  end.
+
 (* samples of the flushed block, in commit order *)
-Definition block_samples (pending : list sample) : list sample := rev (commit pending []).
+Definition block_samples (pending : list sample) : option (list sample) :=
+  match append_all pending [] [] 0 with Some k => Some (rev k) | None => None end.
 
 Record block := mkBlock { b_lo : Z;                   (* t of the loop iteration that wrote it *)
                           b_samples : list sample }.
@@ -149,7 +187,11 @@ Fixpoint loop (input : list entry) (d : Z) (ts : list Z) (next : Z) (acc : list 
       if negb (next =? maxInt64) && (next >=? up) then loop input d r next acc    (* continue *)
       else match scan input t up maxInt64 [] with
            | None => CBErr acc                                                    (* "process blocks" *)
-           | Some (pending, next') => loop input d r next' (emit acc t (block_samples pending))
+           | Some (pending, next') =>
+               match block_samples pending with
+               | None => CBErr acc                                                (* "add sample" *)
+               | Some kept => loop input d r next' (emit acc t kept)
+               end
            end
   end.
 
